@@ -32,16 +32,16 @@ def emit_real(idx, width, slotbits, compact, extra_defs, tag, lentype, maxel, in
         out.append("#define %s" % d)
     out.append('#include "varintPacked.h"')
     f = "%s%d" % (prefix, width)
-    out.append("static void w%d_set(void *d, uint32_t o, uint64_t v) { %sSet(d, (%s)o, v); }" % (idx, f, lentype))
-    out.append("static uint64_t w%d_get(const void *d, uint32_t o) { return %sGet(d, (%s)o); }" % (idx, f, lentype))
-    out.append("static void w%d_incr(void *d, uint32_t o, int64_t by) { %sSetIncr(d, (%s)o, by); }" % (idx, f, lentype))
-    out.append("static void w%d_half(void *d, uint32_t o) { %sSetHalf(d, (%s)o); }" % (idx, f, lentype))
-    out.append("static uint32_t w%d_bsearch(const void *d, uint32_t len, uint64_t v) { return %sBinarySearch(d, (%s)len, v); }" % (idx, f, lentype))
-    out.append("static int64_t w%d_member(const void *d, uint32_t len, uint64_t v) { return %sMember(d, (%s)len, v); }" % (idx, f, lentype))
-    out.append("static void w%d_insert(void *d, uint32_t len, uint32_t o, uint64_t v) { %sInsert(d, (%s)len, (%s)o, v); }" % (idx, f, lentype, lentype))
-    out.append("static void w%d_insert_sorted(void *d, uint32_t len, uint64_t v) { %sInsertSorted(d, (%s)len, v); }" % (idx, f, lentype))
-    out.append("static void w%d_delete(void *d, uint32_t len, uint32_t o) { %sDelete(d, (%s)len, (%s)o); }" % (idx, f, lentype, lentype))
-    out.append("static int w%d_delete_member(void *d, uint32_t len, uint64_t v) { return %sDeleteMember(d, (%s)len, v); }" % (idx, f, lentype))
+    out.append("static void w%d_set(void *d, uint64_t o, uint64_t v) { %sSet(d, (%s)o, v); }" % (idx, f, lentype))
+    out.append("static uint64_t w%d_get(const void *d, uint64_t o) { return %sGet(d, (%s)o); }" % (idx, f, lentype))
+    out.append("static void w%d_incr(void *d, uint64_t o, int64_t by) { %sSetIncr(d, (%s)o, by); }" % (idx, f, lentype))
+    out.append("static void w%d_half(void *d, uint64_t o) { %sSetHalf(d, (%s)o); }" % (idx, f, lentype))
+    out.append("static uint64_t w%d_bsearch(const void *d, uint64_t len, uint64_t v) { return %sBinarySearch(d, (%s)len, v); }" % (idx, f, lentype))
+    out.append("static int64_t w%d_member(const void *d, uint64_t len, uint64_t v) { return %sMember(d, (%s)len, v); }" % (idx, f, lentype))
+    out.append("static void w%d_insert(void *d, uint64_t len, uint64_t o, uint64_t v) { %sInsert(d, (%s)len, (%s)o, v); }" % (idx, f, lentype, lentype))
+    out.append("static void w%d_insert_sorted(void *d, uint64_t len, uint64_t v) { %sInsertSorted(d, (%s)len, v); }" % (idx, f, lentype))
+    out.append("static void w%d_delete(void *d, uint64_t len, uint64_t o) { %sDelete(d, (%s)len, (%s)o); }" % (idx, f, lentype, lentype))
+    out.append("static int w%d_delete_member(void *d, uint64_t len, uint64_t v) { return %sDeleteMember(d, (%s)len, v); }" % (idx, f, lentype))
     out.append("")
     insts.append((idx, width, slotbits, compact, tag, maxel, intree))
 
@@ -81,12 +81,15 @@ intree_last = idx
 # slot index and the bit offset exceed that type's range when the value is wider than the slot
 for (width, slotbits, compact, maxel) in ((12, 8, 0, 60000), (12, 8, 1, 250), (32, 16, 0, 60000), (3, 8, 0, 250), (17, 16, 0, 60000),
                                           (24, 16, 0, 250), (9, 8, 0, 65535), (5, 64, 0, 255), (16, 8, 1, 255), (31, 32, 0, 65535),
-                                          (7, 8, 0, 200), (20, 16, 1, 40000)):
+                                          (7, 8, 0, 200), (20, 16, 1, 40000),
+                                          # every rung of the PACK_MAX_ELEMENTS ladder, both sides of each limit
+                                          (12, 8, 0, 256), (12, 8, 0, 65536), (12, 8, 0, 100000), (10, 16, 0, 1048575), (9, 8, 0, 1048576),
+                                          (12, 8, 1, 16777216), (3, 8, 0, 4294967295), (3, 8, 0, 4294967296), (5, 8, 0, 5000000000)):
     assert width <= slotbits + gcd(width, slotbits)
     defs = ["PACK_MAX_ELEMENTS %d" % maxel]
     defs.append("PACK_STORAGE_COMPACT" if compact else "PACK_STORAGE_SLOT_STORAGE_TYPE %s" % SLOT[slotbits])
     emit(idx, width, slotbits, compact, defs, "narrow length type: w%d slot%d%s max %d" % (width, slotbits, " compact" if compact else "", maxel),
-         lentype="uint8_t" if maxel <= 255 else "uint16_t", maxel=maxel)
+         lentype="uint8_t" if maxel <= 255 else "uint16_t" if maxel <= 65535 else "uint32_t" if maxel <= 4294967295 else "uint64_t", maxel=maxel)
     idx += 1
 
 # Include order matters for a header that is instantiated by re-inclusion: whatever one instantiation leaves defined
@@ -108,16 +111,16 @@ for k, x in enumerate(ordered):
     emit_real(k, **x)
 
 out.append("typedef struct pinst {")
-out.append("    const char *tag; int width, slotbits, compact, intree; uint32_t maxel;")
-out.append("    void (*set)(void *, uint32_t, uint64_t); uint64_t (*get)(const void *, uint32_t);")
-out.append("    void (*incr)(void *, uint32_t, int64_t); void (*half)(void *, uint32_t);")
-out.append("    uint32_t (*bsearch)(const void *, uint32_t, uint64_t); int64_t (*member)(const void *, uint32_t, uint64_t);")
-out.append("    void (*insert)(void *, uint32_t, uint32_t, uint64_t); void (*insert_sorted)(void *, uint32_t, uint64_t);")
-out.append("    void (*del)(void *, uint32_t, uint32_t); int (*del_member)(void *, uint32_t, uint64_t);")
+out.append("    const char *tag; int width, slotbits, compact, intree; uint64_t maxel;")
+out.append("    void (*set)(void *, uint64_t, uint64_t); uint64_t (*get)(const void *, uint64_t);")
+out.append("    void (*incr)(void *, uint64_t, int64_t); void (*half)(void *, uint64_t);")
+out.append("    uint64_t (*bsearch)(const void *, uint64_t, uint64_t); int64_t (*member)(const void *, uint64_t, uint64_t);")
+out.append("    void (*insert)(void *, uint64_t, uint64_t, uint64_t); void (*insert_sorted)(void *, uint64_t, uint64_t);")
+out.append("    void (*del)(void *, uint64_t, uint64_t); int (*del_member)(void *, uint64_t, uint64_t);")
 out.append("} pinst;")
 out.append("static const pinst PINST[] = {")
 for (i, w, s, c, tag, maxel, intree) in insts:
-    out.append('    {"%s", %d, %d, %d, %d, %du, w%d_set, w%d_get, w%d_incr, w%d_half, w%d_bsearch, w%d_member, w%d_insert, w%d_insert_sorted, w%d_delete, w%d_delete_member},'
+    out.append('    {"%s", %d, %d, %d, %d, %dull, w%d_set, w%d_get, w%d_incr, w%d_half, w%d_bsearch, w%d_member, w%d_insert, w%d_insert_sorted, w%d_delete, w%d_delete_member},'
                % (tag, w, s, c, 1 if intree else 0, maxel, i, i, i, i, i, i, i, i, i, i))
 out.append("};")
 out.append("#define NPINST %d" % len(insts))
